@@ -120,6 +120,11 @@ func newPkg(pkg *packages.Package, u *Universe) Package {
 		}
 	}
 
+	var pkgScope *types.Scope
+	if pkg.Types != nil {
+		pkgScope = pkg.Types.Scope()
+	}
+
 	for ident := range p.Package.TypesInfo.Defs {
 		switch x := p.Package.TypesInfo.Defs[ident].(type) {
 		case *types.Func:
@@ -140,13 +145,18 @@ func newPkg(pkg *packages.Package, u *Universe) Package {
 				if named != nil {
 					p.methods[named] = append(p.methods[named], x)
 				}
-			} else {
+			} else if x.Parent() == pkgScope {
 				p.funcs[x.Name()] = x
 			}
 		case *types.TypeName:
-			p.types[x.Name()] = x
+			// only package-level declarations: no function-local types, no type parameters
+			if x.Parent() == pkgScope {
+				p.types[x.Name()] = x
+			}
 		case *types.Const:
-			p.constants[x.Name()] = x
+			if x.Parent() == pkgScope {
+				p.constants[x.Name()] = x
+			}
 		}
 	}
 
